@@ -46,6 +46,14 @@ def unit_steps(idx) -> Dict[bool, List[List[Poly]]]:
     """{cornersUp: 2x2 matrix U with columns = steps of i and j} from HexGrid._getRawUnitSteps."""
     f = idx.method(HEX, "_getRawUnitSteps")
     calls, consts = helper_inliner(idx)
+    consts = dict(consts)
+    # numeric module-level constants of the grid module itself (COS30 = sqrt(3) / 2.0 ...), evaluated exactly
+    for st in f.module.tree.body:
+        if isinstance(st, ast.Assign) and len(st.targets) == 1 and isinstance(st.targets[0], ast.Name) and st.targets[0].id not in consts:
+            try:
+                consts[st.targets[0].id] = ExprEval(consts=consts, opaque=False).ev(st.value)
+            except AnalysisError:
+                pass
     env = {"pitch": Poly.atom("pitch")}
     E = ExprEval(env=env, consts=consts, calls=calls, opaque=False)
     out = {}
